@@ -10,12 +10,12 @@ use std::panic::{AssertUnwindSafe, catch_unwind};
 use bump_scope::traits::{BumpAllocatorTypedScope, MutBumpAllocatorCoreScope, MutBumpAllocatorTypedScope};
 use bump_scope::{BumpBox, BumpString, BumpVec, FixedBumpString, MutBumpString};
 
-use crate::api::Info;
-use crate::arena::{Rec, pick};
-use crate::arena_cells::cells;
+use bsv_core::common::Info;
+use bsv_core::common::{Rec, pick};
+use bsv_cells::cells;
 use crate::coll_api::R2;
-use crate::runner::{CaseReport, CaseResult, Engine, Failure, Marker, panic_message};
-use crate::talloc::{self, FaultPlan, GrantPolicy, with_ctx};
+use bsv_core::runner::{CaseReport, CaseResult, Engine, Failure, Marker, panic_message};
+use bsv_core::talloc::{self, FaultPlan, GrantPolicy, with_ctx};
 
 pub struct StrEngine {
     /// "C09" or "C16" (split_off-heavy mix reporting C16 oracle ids)
@@ -514,7 +514,7 @@ fn step<'b, 'a>(st: &mut St, s: &mut SK<'b, 'a>, m: &mut String, op: &SOp) -> Op
         return None;
     }
     st.ops += 1;
-    st.hash ^= crate::runner::fnv(format!("{op:?}").as_bytes());
+    st.hash ^= bsv_core::runner::fnv(format!("{op:?}").as_bytes());
     st.hash = st.hash.wrapping_mul(0x100000001b3);
     // classification: multi-byte char at an edge, non-boundary index
     let nonboundary = |i: usize| i <= m.len() && !m.is_char_boundary(i);
